@@ -449,6 +449,17 @@ func c26Case(c *ev.Ctx, r *rand.Rand, caseN int) {
 					logs[l] = append(logs[l], rec{req, route.Table})
 				}
 			}
+			// a moved request is now recorded in its new place too; the record in its old database still contradicts the
+			// routing table, so verification keeps failing
+			if wantFail != "" {
+				c.Count("verify_calls_after_reopening_moved_requests", 1)
+				if verr2 := p3.Verify(); verr2 == nil {
+					m := desc()
+					m["mutated_table"], m["opens"], m["expected_failure"], m["phase"] = c26fmtTable(rt2), seq, wantFail, "after the moved requests were opened through the edited table"
+					c.Violation("verify-misses-moved-request", m)
+					return
+				}
+			}
 		}
 		_ = p3.Close()
 	}
